@@ -31,8 +31,8 @@ impl Property for C18 {
     fn components_real(&self) -> Vec<&'static str> { vec!["replication::anti_entropy::{StateDigest::from_state, differs_from, divergent_buckets, KeyDigest::new, MerkleNode}", "AntiEntropyManager::get_keys_in_buckets", "simulator::multi_node::MultiNodeSimulation::run_anti_entropy_sync (the repo's own sync routine)", "ShardReplicaState::apply_remote_delta"] }
     fn components_stubbed(&self) -> Vec<&'static str> { vec!["no network: digests and deltas are handed over in memory, as the repo's routine does"] }
     fn assumptions(&self) -> Vec<&'static str> { vec!["'equal digests => equal states' is checked up to 64-bit hash collision, which cannot occur by chance at these sizes; 'equal states => equal digests' is exact"] }
-    fn required_probes(&self) -> Vec<&'static str> { vec!["bucket_with_2plus_keys", "equal_pair_checked", "unequal_pair_checked", "sync_needed_multiple_rounds", "both_sides_lack_updates", "manager_driven_exchange"] }
-    fn runs(&self, tier: Tier) -> u64 { match tier { Tier::Quick => 25000, Tier::Thorough => 1000000 } }
+    fn required_probes(&self) -> Vec<&'static str> { vec!["bucket_with_2plus_keys", "equal_pair_checked", "unequal_pair_checked", "crosswise_pair_checked", "sync_needed_multiple_rounds", "both_sides_lack_updates", "manager_driven_exchange"] }
+    fn runs(&self, tier: Tier) -> u64 { match tier { Tier::Quick => 18000, Tier::Thorough => 1000000 } }
 
     fn run(&self, src: &mut Src, ctx: &RunCtx) -> RunReport {
         let mut rep = RunReport::default();
@@ -86,6 +86,32 @@ impl Property for C18 {
                 let multi = bk.iter().any(|x| pop.get(x).copied().unwrap_or(0) >= 2);
                 rep.violate(if multi { "C18/equal-states-differ/bucket-fold-order" } else { "C18/equal-states-differ/other" },
                     format!("two replicas built from the same {} deltas in different orders hold equal states ({} keys) but differs_from() = {} and divergent_buckets() = {:?} (keys per such bucket: {:?})", n, pa.len(), da.differs_from(&db), bk, bk.iter().map(|x| pop.get(x).copied().unwrap_or(0)).collect::<Vec<_>>()));
+            }
+        }
+        // unequal pair of another kind: two writers set the same two keys to their own value at the same logical time (a
+        // shard has a clock of its own, so one replica does issue one stamp for keys of different shards); one replica has
+        // heard of key x from writer 1 and of key y from writer 2, the other the other way round. Same keys, the same
+        // multiset of stamped values, held crosswise: the states differ, so must the digests
+        if rep.violations.is_empty() && a.replicated_keys.len() >= 2 && src.chance(1, 3) {
+            let names: Vec<&String> = { let mut v: Vec<&String> = a.replicated_keys.keys().collect(); v.sort(); v };
+            // prefer two keys of one bucket
+            let mut by_bucket: BTreeMap<usize, Vec<&String>> = BTreeMap::new();
+            for k in &names { by_bucket.entry(KeyDigest::new(k, &a.replicated_keys[*k]).bucket(depth)).or_default().push(k); }
+            let pair: Option<(&String, &String)> = by_bucket.values().find(|v| v.len() >= 2).map(|v| (v[0], v[1])).or_else(|| Some((names[0], names[1])));
+            if let Some((kx, ky)) = pair {
+                let t = 1_000_000 + src.below(1000);
+                let mk = |k: &String, val: &str, r: u64| ReplicationDelta::new(k.clone(), redis_sim::replication::state::ReplicatedValue::with_value(SDS::from_str(val), redis_sim::replication::lattice::LamportClock { time: t, replica_id: ReplicaId::new(r) }), ReplicaId::new(r));
+                let mut x = ShardReplicaState::new(ReplicaId::new(11), ConsistencyLevel::Eventual);
+                let mut y = ShardReplicaState::new(ReplicaId::new(12), ConsistencyLevel::Eventual);
+                for d in &deltas { x.apply_remote_delta(d.clone()); y.apply_remote_delta(d.clone()); }
+                x.apply_remote_delta(mk(kx, "on", 1)); x.apply_remote_delta(mk(ky, "off", 2));
+                y.apply_remote_delta(mk(kx, "off", 2)); y.apply_remote_delta(mk(ky, "on", 1));
+                let (dx, dy) = (StateDigest::from_state(&x.replicated_keys, x.replica_id, 0, depth), StateDigest::from_state(&y.replicated_keys, y.replica_id, 0, depth));
+                rep.evals += 1;
+                rep.probe("crosswise_pair_checked");
+                if proj_state(&x.replicated_keys) != proj_state(&y.replicated_keys) && !dx.differs_from(&dy) {
+                    rep.violate("C18/false-in-sync/values-held-crosswise", format!("replica x holds {}=on@({},r1) {}=off@({},r2), replica y holds them the other way round (everything else equal, depth {}): the states differ but the digests are equal: a false 'in sync'", kx, t, ky, t, depth));
+                }
             }
         }
         // unequal pair: withhold tape-chosen deltas from c
